@@ -2,6 +2,7 @@ import Oas3Model.Model.Naming
 import Oas3Model.Gen.Naming
 import Oas3Model.Proofs.Naming
 import Oas3Model.Model.Registry
+import Oas3Model.Proofs.NameIndex
 namespace Oas3.Props.C09
 open Oas3.Naming
 
@@ -206,5 +207,76 @@ theorem cex_base_merge :
     "create_pet_2".toList ≠ "create_pet2".toList ∧ typeName "create_pet_2".toList = typeName "create_pet2".toList ∧
     contested [] ["create_pet_2".toList, "create_pet2".toList] = ["CreatePet2Request".toList, "CreatePet2Response".toList] := by decide +kernel
 end OpNames
+
+/-! ## names pre-computed by the whole-spec scan (`naming/name_index.rs`, model `Model/NameIndex.lean`)
+
+Every inline schema / enum value set that needs a type of its own gets its name BEFORE conversion starts:
+`compute_best_name` over the candidates `<Parent><Property>` collected from all its occurrences, keys walked in map order
+over one `used` set that starts as the Rust names of the component schemas. -/
+section NameIndex
+open Oas3.NameIndex
+
+/-- `longest_common_suffix` is a common suffix of all candidates, and the longest one -/
+theorem lcs_is_suffix (l : List Name) : ∀ s ∈ l, longestCommonSuffix l <:+ s := Oas3.NameIndex.lcs_is_suffix l
+theorem lcs_greatest (f : Name) (rest : List Name) (q : Name) (hq : ∀ s ∈ f :: rest, q <:+ s) :
+    q <:+ longestCommonSuffix (f :: rest) := Oas3.NameIndex.lcs_greatest f rest q hq
+
+/-- a key without a component-schema candidate gets a name that is in use nowhere — for every candidate set, every
+`used` set, every table of forbidden words and every notion of upper case; the loop inside always ends -/
+theorem precomputed_name_fresh (forbidden : List Name) (isUpper : Char → Bool) (cs : List (Name × Bool)) (used : List Name) (n : Name)
+    (hs : fromSchema cs = false) (hne : cs ≠ []) (h : computeBestName forbidden isUpper cs used = some n) : n ∉ used :=
+  best_name_fresh forbidden isUpper cs used n hs hne h
+
+theorem precomputed_name_total (forbidden : List Name) (isUpper : Char → Bool) (cs : List (Name × Bool)) (used : List Name) :
+    (computeBestName forbidden isUpper cs used).isSome = true := best_name_total forbidden isUpper cs used
+
+/-- the whole walk (any number of keys): it ends, answers every key, and the names of INLINE types (no component-schema
+candidate) are pairwise distinct and distinct from every name in use before — in particular from the Rust names of all
+component schemas, with which `used` starts -/
+theorem precomputed_names_collision_free {K} (forbidden : List Name) (isUpper : Char → Bool) (l : List (K × List (Name × Bool)))
+    (used : List Name) (hall : ∀ p ∈ l, fromSchema p.2 = false ∧ p.2 ≠ []) :
+    ∃ out u', resolveNames forbidden isUpper l used = some (out, u') ∧ out.map (·.1) = l.map (·.1) ∧
+      (out.map (·.2)).Nodup ∧ ∀ n ∈ out.map (·.2), n ∉ used := by
+  have ht := resolve_total forbidden isUpper l used
+  cases hr : resolveNames forbidden isUpper l used with
+  | none => simp [hr] at ht
+  | some q =>
+    obtain ⟨out, u'⟩ := q
+    have hc := resolve_freshChain forbidden isUpper l used out u' hr
+    exact ⟨out, u', rfl, freshChain_keys used l out hc, freshChain_nodup used l out hc hall⟩
+
+/-- a key WITH a component-schema candidate takes that name over unchecked (first such candidate in set order) -/
+theorem precomputed_name_from_schema (forbidden : List Name) (isUpper : Char → Bool) (cs : List (Name × Bool)) (used : List Name)
+    (c : Name × Bool) (hc : cs.find? (fun c => c.2) = some c) : computeBestName forbidden isUpper cs used = some c.1 :=
+  best_name_from_schema forbidden isUpper cs used c hc
+
+private def nm (s : String) : Name := s.toList
+private def up (c : Char) : Bool := c.isUpper
+
+/-- non-vacuity: `Job.run_state` and `JobRun.state` both want `JobRunState`; `Org.settings` / `User.settings` share the
+suffix `Settings`; `ProjectSettings` / `TenantSettings` share `tSettings`, which does not start upper-case, so the first wins -/
+example : resolveNames Oas3.Gen.forbidden up
+    [(1, [(nm "JobRunState", false)]), (2, [(nm "JobRunState", false)]), (3, [(nm "OrgSettings", false), (nm "UserSettings", false)]), (4, [(nm "ProjectSettings", false), (nm "TenantSettings", false)])] [nm "Job", nm "JobRun"]
+    = some ([(1, nm "JobRunState"), (2, nm "JobRunState2"), (3, nm "Settings"), (4, nm "ProjectSettings")],
+        [nm "ProjectSettings", nm "Settings", nm "JobRunState2", nm "JobRunState", nm "Job", nm "JobRun"]) := by
+  decide +kernel
+
+/-- the ORDER of the walk decides who keeps the plain name: the keys must be visited in an order that does not depend on
+the process (they are: `BTreeMap`; the seeded change C11/m11 made it a `HashMap`) -/
+theorem cex_walk_order_decides :
+    (resolveNames Oas3.Gen.forbidden up [(1, [(nm "JobRunState", false)]), (2, [(nm "JobRunState", false)])] []).map (·.1) ≠
+    ((resolveNames Oas3.Gen.forbidden up [(2, [(nm "JobRunState", false)]), (1, [(nm "JobRunState", false)])] []).map (·.1)).map
+      (fun o => o.reverse) := by decide +kernel
+
+/-- a short or reserved common suffix is not used: the first candidate is -/
+example : computeBestName Oas3.Gen.forbidden up [(nm "AType", false), (nm "BType", false)] [] = some (nm "AType") ∧
+    computeBestName Oas3.Gen.forbidden up [(nm "AbId", false), (nm "CdId", false)] [] = some (nm "AbId") ∧
+    computeBestName Oas3.Gen.forbidden up [(nm "Xstatus", false), (nm "Ystatus", false)] [] = some (nm "Xstatus") := by decide +kernel
+
+/-- no candidates at all: the fixed name `UnknownType`, NOT checked against the names in use (unreachable from the scan:
+a key is only created together with a candidate) -/
+theorem cex_unknown_type_unchecked : computeBestName Oas3.Gen.forbidden up [] [nm "UnknownType"] = some (nm "UnknownType") := by
+  decide +kernel
+end NameIndex
 
 end Oas3.Props.C09
